@@ -8,6 +8,7 @@ import (
 	gonet "net"
 	"strings"
 	"sync"
+	"sync/atomic"
 	"time"
 
 	"github.com/lugu/qiloop/bus"
@@ -88,8 +89,20 @@ func proxyFor(sess bus.Session, ps *probeService, obj *probeObject) (probe.Probe
 	if err != nil {
 		return nil, err
 	}
+	if atomic.AddInt64(&proxyForCount, 1)%3 == 0 {
+		// one proxy in three is obtained the way a proxy for an object received in a message is: from an
+		// object reference (service id, object id, meta object) through Session.Object
+		p2, err := sess.Object(bus.ObjectReference(p))
+		if err != nil {
+			return nil, fmt.Errorf("Session.Object(reference to %s/%d): %v", ps.name, obj.id, err)
+		}
+		atomic.AddInt64(&proxyViaRef, 1)
+		p = p2
+	}
 	return probe.MakeProbe(sess, p), nil
 }
+
+var proxyForCount, proxyViaRef int64
 
 // rawConn is a harness-owned connection speaking the documented wire format.
 type rawConn struct {
